@@ -1,3 +1,4 @@
+import BoolFn.Proofs.Oracle
 import BoolFn.Proofs.BddOps
 import BoolFn.Proofs.TableOps
 import BoolFn.Proofs.Inner
